@@ -286,6 +286,12 @@ func kvTreeJobs(prop string, q bool, add func(kind, id string, w int, s map[stri
 		id := fmt.Sprintf("btree%d.nat.n%d", hm[0], hm[1])
 		add("kv", id, hm[1]*hm[1], map[string]string{"c": "btree", "cmp": "nat"}, map[string]int{"m": hm[0], "n": hm[1], "rank": 1, "lite": 1})
 	}
+	// wide nodes under comparators whose results are not -1/0/+1 (differences of large magnitude, MinInt/MaxInt,
+	// +-4e9): an in-node search must use nothing but the sign (after seeded change C02-16)
+	for _, cm := range []string{"rev", "ext", "big"} {
+		n := pick(40, 48)
+		add("kv", fmt.Sprintf("btree32.%s.n%d", cm, n), n*n, map[string]string{"c": "btree", "cmp": cm}, map[string]int{"m": 32, "n": n, "rank": 1, "lite": 1})
+	}
 	// large trees under non-monotone histories (family.go churnJob)
 	cu := pick(48, 96)
 	// (orders 6, 7, 9: an inner node of height 3 next to a FULL inner sibling - where a borrow may move more than
